@@ -12,8 +12,8 @@ pub static DEF: PropDef = PropDef {
     level: "exploration",
     rule: "each case: one input (valid known/unknown-size documents from the real writer or the hostile reference encoder, truncated at a random byte, 1-3 mutations, adversarial headers, mid-document suffixes; masters repeated as siblings and nested) x a tolerance subset, parsed once without buffering and then with buffered sets: ALL subsets of the master ids that occur in the input when there are <= 6 (thorough) / <= 4 (quick), random subsets (plus 'every master') otherwise. Oracle: replacing every Full by Start, children (recursively), End gives the unbuffered item sequence when the unbuffered parse is clean (and the buffered one must be clean too); when the unbuffered parse ends in an error the flattened buffered items must be a prefix of the unbuffered ones and the buffered parse must end in an error; items outside Full masters must carry the same offsets. distinct = (input kind, buffered-set size class, outcome class, shape hash); non-trivial iff a Full with a nested master was produced or the error fell inside a buffered master.",
     assumptions: &["end-of-stream closing is left enabled (the default): with closing disabled a buffered master that is still open at end of input can never become a Full item, so no behaviour could satisfy the statement"],
-    cases_quick: 40_000,
-    cases_thorough: 500_000,
+    cases_quick: 600_000,
+    cases_thorough: 3_000_000,
     floors: &[("buffered_parses_compared", 30_000), ("distinct_nontrivial", 500), ("full_items_seen", 10_000), ("error_inside_buffered_master", 300)],
     exhaustive_note: Some("all subsets of the master ids occurring in the input as the buffered set, for inputs with <= 4 (quick) / <= 6 (thorough) distinct masters"),
     run,
